@@ -1,19 +1,27 @@
 #!/bin/bash
-# usage: seed_mutant.sh <property> <worktree> <name> [other properties to run...]
-# Confirms a candidate mutant (diff in <worktree> + demo.py): demo passes without / fails with the change,
-# the repository's stable tests still pass, then runs the checks against it and stores it under seeded/.
+# usage: seed_mutant.sh <property> <worktree-or-patchfile> <name> [other properties to run...]
+# Confirms a candidate mutant: applies its patch to a FRESH worktree of /repo's HEAD, checks that the
+# demonstration passes without / fails with the change and that the repository's stable tests still pass,
+# runs the named checks against it, stores everything under seeded/<name>/, removes the worktree.
+# (git stash is shared by all worktrees of a repository: never used here.)
 set -u
-PROP=$1; WT=$2; NAME=$3; shift 3
+PROP=$1; SRC=$2; NAME=$3; shift 3
 OUT=/verif/seeded/$NAME
 mkdir -p $OUT
-git -C $WT diff > $OUT/patch.diff
-cp $WT/demo.py $OUT/demo.py
+if [ -d "$SRC" ]; then
+  git -C $SRC diff > $OUT/patch.diff
+  cp $SRC/demo.py $OUT/demo.py
+else
+  cp $SRC $OUT/patch.diff
+fi
+WT=/tmp/seedwt_$NAME
+git -C /repo worktree add -f $WT HEAD -q
 cd $WT
-timeout 600 /venv/bin/python demo.py > /tmp/demo_with.log 2>&1; WITH=$?
-# NOTE: git stash is shared by all worktrees of a repository: never use it here
-git apply -R $OUT/patch.diff
-timeout 600 /venv/bin/python demo.py > /tmp/demo_without.log 2>&1; WITHOUT=$?
-git apply $OUT/patch.diff
+cp $OUT/demo.py $WT/demo.py
+sed -i "s#/tmp/mut_C[0-9]*#$WT#g" $WT/demo.py
+timeout 900 /venv/bin/python demo.py > /tmp/demo_without.log 2>&1; WITHOUT=$?
+if ! git apply $OUT/patch.diff; then echo "PATCH DOES NOT APPLY"; fi
+timeout 900 /venv/bin/python demo.py > /tmp/demo_with.log 2>&1; WITH=$?
 echo "demo exit: with=$WITH without=$WITHOUT"
 cd /verif
 BASE=$(timeout 1200 /venv/bin/python -m harness.baseline_check --repo $WT | head -1)
@@ -25,8 +33,9 @@ for P in $PROP "$@"; do
   RES="$RES $P:$RC"
 done
 cat > $OUT/meta.json <<EOM
-{"property": "$PROP", "worktree_demo_exit_with_change": $WITH, "worktree_demo_exit_without_change": $WITHOUT,
- "repo_tests_with_change": "$BASE", "checks_run_quick_exit_codes": "$RES"}
+{"property": "$PROP", "demo_exit_with_change": $WITH, "demo_exit_without_change": $WITHOUT,
+ "repo_tests_with_change": "$BASE", "clean_worktree_baseline": 151,
+ "checks_run_quick_exit_codes": "$RES", "repo_head": "$(git -C /repo rev-parse --short HEAD)"}
 EOM
 find /verif/replay -name "*.json" -newer $OUT/patch.diff -delete
-git -C /repo status --short | head -3
+git -C /repo worktree remove --force $WT
